@@ -109,6 +109,14 @@ def render_doc(sc, entries, summary="Do the thing.", indent="    ", key="param")
             lines.append(("  %s (%s): %s" % (e["n"], TYP[e["typ"]], PROSE[e["n"]])) if e.get("typ", "absent") != "absent"
                          else "  %s: %s" % (e["n"], PROSE[e["n"]]))
         lines.append("")
+    if sc.get("tail"):
+        # a section after the parameters (C12: whatever the parser does with it, it must do the same every time)
+        if style == "numpydoc":
+            lines += ["References", "----------", "- https://example.org/paper", ""]
+        elif style == "google":
+            lines += ["Reference:", "  - https://example.org/paper", ""]
+        else:
+            lines += [".. note:: see https://example.org/paper", ""]
     return ("\n" + indent).join(lines).rstrip()
 
 
@@ -269,6 +277,7 @@ def build(thorough, rnd, extras=False):
         for v in (variants if (thorough and not is_ext) else rnd.sample(variants, 3)):
             for _ in range(reps):
                 sc = decorate(core, rnd, v)
+                sc["tail"] = bool(extras and rnd.random() < 0.3)
                 sc["src"] = render(sc)
                 sc["id"] = "m%d" % len(scs)
                 scs.append(sc)
@@ -381,7 +390,7 @@ def run(prop, propose=False, replay=None):
                 seen.add(e["input"])
                 sc = src_by[e["input"]]
                 feat = {"k": "process", "cl": cl, "op": op, "kind": sc["kind"], "style": sc["style"], "ndoc": len(sc["doc"]), "kwargs": sc["kwargs"] or "none",
-                        "nextras": sum(1 for x in sc["doc"] if x["n"].startswith("stale_")), "comps": []}
+                        "nextras": sum(1 for x in sc["doc"] if x["n"].startswith("stale_")), "tail": bool(sc.get("tail")), "comps": []}
                 if matcher.match(feat) is None:
                     if propose:
                         unmatched.append(feat)
